@@ -57,7 +57,7 @@ def load_own_findings(ctx):
 # --------------------------------------------------------------------------- generators
 def gen_mission(rng, kinds=None) -> dict:
     kinds = kinds or ['ok', 'ok', 'ok', 'unknown_orig', 'unknown_dest', 'orig_high', 'dest_high', 'envelope', 'short', 'given',
-                      'envelope_start']
+                      'envelope_start', 'orig_above_low_ceiling']
     kind = str(rng.choice(kinds))
     case = L.gen_case(rng, n_choices=[2, 3, 7, 33, 50, 51])
     case['want'] = kind
@@ -80,6 +80,12 @@ def gen_mission(rng, kinds=None) -> dict:
         case['load_factor'] = 0.0
         case['perf'] = {'kind': 'sample'}
         case['dest'] = [case['orig'][0] + 1.5, case['orig'][1] + 1.0, 10.0]
+    elif kind == 'orig_above_low_ceiling':
+        # the aircraft's declared ceiling is low while its performance table reaches far higher, and the departure airport lies
+        # above that ceiling: the mission must be refused by the constructor (not flown above the ceiling, not refused later for
+        # another reason)
+        case['perf'] = {'kind': 'sample_low', 'max_alt_ft': int(rng.choice([11000, 12000, 12500]))}
+        case['orig'][2] = float(rng.uniform(3900.0, 4600.0))
     elif kind == 'envelope_start':
         case['perf'] = {'kind': 'sample_low', 'max_alt_ft': int(rng.choice([12000, 11000, 12500]))}
     elif kind == 'short':
@@ -223,6 +229,28 @@ def run_history(ctx, hist: dict, as_is_model=False, intended=False):
         # --- clause: builder left clean
         if 'ctx' in vars(shared):
             fails.append(('no context is left on the builder after a flight', hist, where, None))
+        # --- clause: an airport above the aircraft's ceiling is rejected for THAT reason (independent of the constructor probe
+        #     below, which asks the implementation itself): a departure airport whose own elevation exceeds the declared ceiling can
+        #     be flown by no altitude schedule; the refusal must come from the mission set-up of the builder (it mentions the
+        #     departure airport / the cruise level), not from somewhere deeper for an unrelated reason, and nothing may be flown
+        try:
+            ceiling = float(L.perf_model(case['perf']).maximum_altitude)
+        except Exception:  # noqa: BLE001
+            ceiling = None
+        if ceiling is not None and case.get('orig') is not None and float(case['orig'][2]) > ceiling + 1.0 and case.get('given_mass') is None:
+            if res['ok']:
+                fails.append(('a rejected mission surfaces the original reason', hist,
+                              f'{where}: departure airport at {case["orig"][2]:.0f} m is above the aircraft ceiling {ceiling:.0f} m, yet a '
+                              f'trajectory was returned (highest point {max(res["cols"][L.FIELDS.index("altitude")]):.0f} m)', None))
+            else:
+                import traceback as _tb
+
+                msg = str(res['exc']).lower()
+                tbk = _tb.extract_tb(res['exc'].__traceback__)
+                deepest = tbk[-1].filename if tbk else ''
+                if not ('cruise' in msg or 'departure' in msg or 'airport' in msg or deepest.endswith('builders/legacy.py')):
+                    fails.append(('a rejected mission surfaces the original reason', hist,
+                                  f'{where}: departure airport above the ceiling, but the refusal is {res["exc"]!r} raised in {deepest}', None))
         # --- clause: the original reason surfaces
         e0 = probe_ctor(case)
         ctor = 'ok'
